@@ -288,7 +288,7 @@ func checkC20(p *load.Program, r *kit.Report) {
 			for _, e := range edgesOf(eg, false) {
 				rr := kit.Reach(f, []kit.Pt{kit.EdgeStart(e)}, kit.Opts{})
 				for _, ret := range kit.Returns(f) {
-					if rr.Has(ret) && kit.ReturnErrClass(ret) != kit.ErrNil {
+					if rr.Has(ret) && rr.ErrClass(ret) != kit.ErrNil {
 						bad = "a record that cannot be decoded (file cut short) makes Load fail instead of keeping the peers that were fully written"
 					}
 				}
